@@ -485,6 +485,10 @@ def sc_equalities(rng, consts, nwords):
     sc = Scenario(rng, consts, 'equalities/%d' % nwords)
     sc.families |= {'equality', 'string', 'logogram', 'value-accessors'}
     words = list(KNOWN_WORDS) + [''] + list(consts['specifiers'][:6]) + list(consts['qualifiers'])
+    # spellings that only a full comparison of length AND bytes tells apart: equal up to an embedded NUL, a word and the word followed
+    # by NUL, a word and its extension, words that differ in the last byte only
+    words += ['vec\x00a', 'vec\x00b', 'vec\x00', 'vec', '\x00a', '\x00b', '\x00', 'Java', 'JavaScript', 'abcdefgh', 'abcdefgi',
+              'abcdefghijklmnop', 'abcdefghijklmnoq']
     words = sorted(set(words))
     while len(words) < nwords:
         words.append(sc.word(rng.choice(['a', 'bb', 'Ccc'])))
